@@ -33,7 +33,8 @@ def find_target(L, t):
     """must-fire rule: a target named by a spec must be found exactly once"""
     idx = L.idx
     if 'lambda_in' in t or 'region_in' in t or 'local_method_in' in t:
-        host = find_target(L, {'qname': t.get('lambda_in') or t.get('region_in') or t.get('local_method_in'), 'type': t.get('host_type')})
+        host = find_target(L, {'qname': t.get('lambda_in') or t.get('region_in') or t.get('local_method_in'), 'type': t.get('host_type'),
+                               'targs': t.get('host_targs')})
         return host
     if 'qname_re' in t:
         # names that embed a source position (instantiations over a lambda type: "(lambda at file:line:col)")
